@@ -15,7 +15,9 @@ Event  ["recv", frame] | ["task", t] | ["cb", t] | ["jstart", j] | ["jfin", j] |
          (the last two are Model/EndpointX.v's ServerCancel i = cancel() on the in-flight future i without
           popping it, and OutCancel o = the caller cancels the o-th future send_request returned)
          t / j = index of the handler task / pool work item in creation order
-Frame  {"t": "garbage", "v": 0..5}
+Frame  (a request / notification of class "unknown" may carry "mn": index into UNKNOWN_NAMES = the method name
+        on the wire; the model does not see it)
+       {"t": "garbage", "v": 0..5}
        {"t": "req",   "id": id, "ver": bool, "ps": "ok"|"bad"|"fail", "m": rmethod, "np": bool}
        {"t": "notif", "tag": n, "ver": bool, "ps": ..., "m": nmethod}
        {"t": "resp",  "id": id, "ver": bool, "err": bool, "ps": ...}
@@ -154,10 +156,22 @@ class _Sentinel:
 
 
 # ------------------------------------------------------------------ frames on the wire
+# Names of methods nobody handles (frame member "mn" = index; the model has ONE class for them, RUnknown /
+# NUnknown: a request is answered -32601 whatever the name, a notification is ignored): the `$/` namespace,
+# prefixes and extensions of registered names, the empty string, names that differ from a registered one
+# only by case / a trailing slash / a trailing blank, a very long name, non-ASCII names
+UNKNOWN_NAMES = ["t/none", "$/unknownRequest", "$/", "$/cancelRequestx", "$/progress/x", "textDocument/hoverx",
+                 "textDocument/", "workspace/executeCommandx", "workspace", "", " ", "Shutdown", "SHUTDOWN", "shutdown/",
+                 "initialize ", "Exit", "t/sync/", "T/SYNC", "t/Sync", "/t/sync", "x/" + "a" * 5000,
+                 "t/\u00e9\u00df\u4e16\U0001F60B", "\u0000", "rpc.discover"]
+
+
 def frame_method(f):
     """Method string of a request / notification frame, and the name a chained user feature has."""
     m = f["m"]
     k = m[0]
+    if k == "unknown" and f.get("mn") is not None:
+        return UNKNOWN_NAMES[f["mn"] % len(UNKNOWN_NAMES)]
     if f["t"] == "req":
         if k == "unknown":
             return "textDocument/hover" if m[1] == 2 else "t/none"
@@ -250,7 +264,7 @@ def wire(f):
     k = m[0]
     if t == "req":
         if k == "unknown":
-            if m[1] == 2:
+            if m[1] == 2 and f.get("mn") is None:
                 o["params"] = {"textDocument": {"uri": "file:///a.txt"}, "position": {"line": 0, "character": 0}}
             elif m[1] == 0:
                 o["params"] = {"x": 1}
